@@ -274,6 +274,16 @@ func runC08(c *Ctx) {
 				r.Pass("collector/add-steps", key+" "+st.name, f.P.posStr(f.Body.Pos()), "on every path")
 			}
 		}
+		// the scheduled flag is cleared BEFORE the object is serialised: a modification followed by
+		// Enqueue while the writer is marshalling must be scheduled again - with the reset after
+		// BatchWrite that Enqueue finds the flag still set, is dropped, and the newer state is never written
+		if ws := f.Find(steps[2].pred); len(ws) == 1 {
+			if w, found := f.PathFromEntryAvoiding(ws[0], steps[0].pred, nil); found {
+				r.Fail("collector/add-steps", key+" reset-before-serialise", f.PosOf(ws[0]), "the object is serialised (BatchWrite) before its scheduled flag is reset: an Enqueue of a newer state during the serialisation is dropped as already scheduled and never written", w...)
+			} else {
+				r.Pass("collector/add-steps", key+" reset-before-serialise", f.PosOf(ws[0]), "ResetBatchWriteScheduled precedes BatchWrite on every path")
+			}
+		}
 		// slot store precedes the counter increment
 		stores := f.Find(steps[3].pred)
 		incs := f.Find(steps[4].pred)
